@@ -1377,7 +1377,42 @@ def edit_geo(obj, edit):
             obj.set_verts([p.vertices for p in obj.get_paths()[1:]])
 
 
+def run_geo_indices(ck, c):
+    """the index table returned with return_indices=True: the caller reorders it in place; the Grid must
+    still report the table, and attach data through it, as a fresh grid does"""
+    UX = ux()
+    g = base_grid(c)
+    ref = base_grid(c)
+    res = {"raises": None}
+    per = c["periodic"]
+    try:
+        want_idx = [int(x) for x in ref.to_polycollection(periodic_elements=per, return_indices=True)[1]]
+        rda = UX.UxDataArray(np.arange(ref.n_face, dtype=float) * 2 + 1, dims=["n_face"], uxgrid=ref, name="w")
+        want_dat = [float(x) for x in rda.to_polycollection(periodic_elements=per).get_array()]
+        pc, idx = g.to_polycollection(periodic_elements=per, return_indices=True)
+        if len(idx) < 2 or len(set(int(x) for x in idx)) < 2:
+            return res, None
+        if isinstance(idx, list):
+            idx.reverse()
+        else:
+            idx[:] = np.asarray(idx)[::-1].copy()
+        pc2, idx2 = g.to_polycollection(periodic_elements=per, return_indices=True)
+        da = UX.UxDataArray(np.arange(g.n_face, dtype=float) * 2 + 1, dims=["n_face"], uxgrid=g, name="w")
+        dat = [float(x) for x in da.to_polycollection(periodic_elements=per).get_array()]
+        res["same_object"] = idx2 is idx
+        res["changed"] = [int(x) for x in idx2] != want_idx or dat != want_dat
+    except Exception as ex:
+        res["raises"] = type(ex).__name__ + ": " + str(ex)[:100]
+        return res, None
+    if res["changed"]:
+        ck.fail("export_edit_changes_grid", c, {"export": "to_polycollection:indices", "returns_cached_object": bool(res["same_object"])},
+                detail="after the caller reordered the returned index table, the Grid reports another table / attaches data to other polygons")
+    return res, ("export_geo", sx(["@V", [["B", 1, 2, 3]], 0]))
+
+
 def run_geo(ck, c):
+    if c["export"] == "to_polycollection_indices":
+        return run_geo_indices(ck, c)
     g = base_grid(c)
     res = {"raises": None}
     try:
@@ -1591,6 +1626,12 @@ def gen_cases(ck):
         m = small_mesh(rng, uniform=True)
         cases.append({"kind": "export", "format": "exodus", "mesh": mesh_case(m), "ncalls": 1, "edit": list(ed),
                       "pre": ["node_x"] if rng.random() < 0.5 else []})
+    # --- the index table handed out with return_indices=True
+    for periodic in ("split", "exclude"):
+        for _ in range(2 if quick else 20):
+            m = small_mesh(rng)
+            cases.append({"kind": "geo", "export": "to_polycollection_indices", "engine": None, "edit": "reorder",
+                          "periodic": periodic, "mesh": mesh_case(m)})
     # --- geometry exports
     for export, engines in (("to_geodataframe", ["spatialpandas", "geopandas"]), ("to_linecollection", [None]),
                             ("to_polycollection", [None])):
